@@ -316,7 +316,7 @@ def cpBracket (p0 : CP) (tok0 r1 : Bytes) : Outcome (Option Span × CP) := do
   let p := { p with rest := r }
   if typ == tokRbracket then
     let p := if minOpen || tok == [41] then p.setErr else p
-    match newSpan min false min false with
+    match newSpanAliased min with
     | .panic => .panic
     | .err => .ok (none, p.setErr)
     | .ok sp => .ok (some sp, p)
@@ -502,7 +502,7 @@ theorem cpBracket_spec (s : System) (hs : Generic s = true) (p0 : CP) (hp0 : p0.
                 simp only [CP.setErr]
                 split <;> simp [CP.setErr, hp']
               · rename_i sp hsp
-                refine srInv_some s p0 _ sp (newSpan_spec s hs _ _ _ _ hmin hmin sp hsp) ?_ ?_
+                refine srInv_some s p0 _ sp (newSpanAliased_spec s hs _ hmin sp hsp) ?_ ?_
                 · split <;> simp [CP.setErr, hp']
                 · split
                   · simp [CP.setErr]
